@@ -245,3 +245,44 @@ func verifWrapLogWriter(w io.Writer, output string) io.Writer {
 }
 `)
 }
+
+func init() { generators = append(generators, genProxyLock) }
+
+// The proxy's periodic flusher and its copy loop share the ResponseWriter
+// under maxLatencyWriter's mutex. Count how many such locks are held, so the
+// simulator knows when a Flush that reaches the ResponseWriter excludes
+// nobody and may therefore be made a scheduling point (parking a goroutine
+// that holds a mutex others want would never quiesce).
+func genProxyLock(repo, out string, m map[string]string) error {
+	if err := rewriteFile(repo, out, m, "proxylock", "caskethttp/proxy/reverseproxy.go", []repl{
+		{old: "m.lk.Lock()", new: "verifLkLock(&m.lk)"}, {old: "m.lk.Unlock()", new: "verifLkUnlock(&m.lk)"}}); err != nil {
+		return err
+	}
+	if !applied["proxylock"] {
+		delete(m, filepath.Join(repo, "caskethttp/proxy/reverseproxy.go"))
+	}
+	return shim(repo, out, m, "caskethttp/proxy/zz_verif_lock.go", `//go:build verif
+
+package proxy
+
+import (
+	"sync"
+	"sync/atomic"
+)
+
+var verifLocksHeld int32
+
+// VerifLocksHeld is the number of maxLatencyWriter locks currently held.
+func VerifLocksHeld() int { return int(atomic.LoadInt32(&verifLocksHeld)) }
+
+func verifLkLock(mu *sync.Mutex) {
+	mu.Lock()
+	atomic.AddInt32(&verifLocksHeld, 1)
+}
+
+func verifLkUnlock(mu *sync.Mutex) {
+	atomic.AddInt32(&verifLocksHeld, -1)
+	mu.Unlock()
+}
+`)
+}
